@@ -54,6 +54,10 @@ ASSUMPTIONS = [
     "multi-render histories on one image object (seek / render / partially consumed ImageIterator): every "
     "render and every iterator frame is judged on its own against the CURRENT frame (image.tell() / the "
     "iterator's frame number) of the source, re-read from the file",
+    "interleaved renders: render B of another image object (or the same one; the documentation says nothing "
+    "against re-entrancy) runs to completion inside a seam render A calls between two of its strips "
+    "(module-level standard_b64encode / compress of the style module); renders are independent: A's and "
+    "B's command streams are each judged by the same clauses against their own references",
     "payload length 0 cannot occur in a real render (sizes are >= 1 px): it is covered by the "
     "spec -> code replay of get_chunks only",
 ]
@@ -312,6 +316,8 @@ def traces_of(case):
     """All traces of a case: one for a plain case, one per render for a multi-render history."""
     if "history" in case:
         return history_traces(case)
+    if "inner" in case:
+        return interleaved_traces(case)
     return [trace_of(case)]
 
 
@@ -356,6 +362,81 @@ def history_traces(case):
 def trace_of(case):
     out, hdr, ref = render_case(case)
     return _trace(out, hdr, ref, case)
+
+
+class Seam:
+    """Wraps a module-level function of a style module (``standard_b64encode`` / ``compress`` of
+    ``term_image.image.kitty`` / ``.iterm2``) so that its k-th call during the outer render first
+    performs ``action`` (a complete render of another image object), then proceeds.  This is the
+    deterministic stand-in for two overlapping renders (two threads; zlib / PNG encoding release
+    the GIL): no real thread, same interleaving on every run."""
+
+    def __init__(self, style, name, k, action):
+        self.style, self.name, self.k, self.action = style, name, k, action
+        self.calls, self.busy, self.reached = 0, False, False
+
+    def __enter__(self):
+        import sys
+
+        self.mod = sys.modules.get(f"term_image.image.{self.style}")
+        if self.mod is None or not callable(getattr(self.mod, self.name, None)):
+            raise tlc.MachineryError(f"seam term_image.image.{self.style}.{self.name} is missing")
+        self.orig = getattr(self.mod, self.name)
+
+        def wrapper(*a, **kw):
+            if not self.busy:
+                self.calls += 1
+                if self.calls == self.k:
+                    self.busy = True
+                    try:
+                        self.reached = True
+                        self.action()
+                    finally:
+                        self.busy = False
+            return self.orig(*a, **kw)
+
+        setattr(self.mod, self.name, wrapper)
+        return self
+
+    def __exit__(self, *exc):
+        setattr(self.mod, self.name, self.orig)
+        return False
+
+
+def interleaved_traces(case):
+    """Render A of ``case`` is suspended at a seam between two of its strips (or just before its
+    only transmission is encoded); render B (``case['inner']``: another image object, or the SAME
+    object when ``inner['same']``) runs to completion there; A continues.  Law: renders are
+    independent - both outputs are judged on their own by Trace_Gfx against their own references."""
+    inner = case["inner"]
+    image_a, ref_a, anim_a = open_image(case)
+    if inner.get("same"):
+        image_b, ref_b, anim_b = image_a, ref_a, anim_a
+    else:
+        image_b, ref_b, anim_b = open_image(inner)  # same terminal identity / cell size as A
+    got = {}
+
+    def render_b():
+        got["out"], got["hdr"] = render_on(image_b, inner, ref_b, anim_b)
+
+    style, name, k = case["seam"]
+    try:
+        with Seam(style, name, k, render_b) as seam:
+            out_a, hdr_a = render_on(image_a, case, ref_a, anim_a)
+    finally:
+        for im in (image_a, image_b):
+            try:
+                im.close()
+            except Exception:
+                pass
+    if not seam.reached or "out" not in got:
+        raise tlc.MachineryError(
+            f"interleaving seam {style}.{name} call #{k} was never reached ({seam.calls} calls): {case}"
+        )
+    hdr_a["il"] = f"A:{case['style']}:{hdr_a['method']}<-{inner['style']}:{got['hdr']['method']}" + (
+        ":same-object" if inner.get("same") else "")
+    got["hdr"]["il"] = "B"
+    return [_trace(out_a, hdr_a, ref_a, case), _trace(got["out"], got["hdr"], ref_b, inner)]
 
 
 def _trace(out, hdr, ref, case):
@@ -615,7 +696,50 @@ def history_cases(rng, tier):
                     yield c
 
 
+def interleaved_cases(rng, tier):
+    """A complete render B of another image object (or of the same one) inside render A."""
+    reps = 3 if tier == "quick" else 40
+    kinds = (("kitty", "lines"), ("kitty", "whole"), ("iterm2", "lines"), ("iterm2", "whole"))
+    for rep_no in range(reps):
+        for sa, ma in kinds:
+            # same style + LINES on both sides share the most module-level state: twice as often
+            for sb, mb in kinds + (("same", None),) + ((("kitty", "lines"), ("iterm2", "lines")) if ma == "lines" else ()):
+                same = sb == "same"
+                if same:
+                    sb, mb = sa, rng.choice(["lines", "whole"])
+                ident = "konsole" if sa != sb else rng.choice(KITTY_IDENTS if sa == "kitty" else ITERM_IDENTS)
+                cell = rng.choice(CELLS)
+                fg_bg = rng.choice([[None, None], [None, [16, 32, 48]]])
+
+                def one(style, method):
+                    c = base_case(rng, style, method=method, ident=ident, cell=cell, fg_bg=fg_bg,
+                                  size=[rng.randrange(1, 6), rng.randrange(2, 5)],
+                                  src=rng.choice([[3, 5], [16, 9], [7, 13], [40, 40], [97, 61]]),
+                                  mode=rng.choice(["RGB", "RGBA", "L", "LA", "P"]),
+                                  alpha=rng.choice(ALPHAS), pixstyle=rng.choice(["noise", "mixed"]),
+                                  srckind=rng.choice(["pil", "pilfile", "file"]))
+                    c["args"]["compress"] = rng.randrange(0, 10)
+                    if style == "iterm2":
+                        c["jpeg"] = rng.choice([None, None, 50])
+                        c["rff"] = rng.choice([None, True, False])
+                    c["via"] = rng.choice(["format", "renderer"])
+                    return c
+
+                a, b = one(sa, ma), one(sb, mb)
+                if same:
+                    b = dict(a, method=mb, same=True)
+                # which call of which module-level function suspends A: between two strips for
+                # LINES (call 2..rh), just before the only payload is encoded for WHOLE
+                name = "standard_b64encode"
+                if sa == "kitty" and a["args"]["compress"] > 0 and rng.random() < 0.5:
+                    name = "compress"
+                a["seam"] = [sa, name, rng.randrange(2, a["size"][1] + 1) if ma == "lines" else 1]
+                a["inner"] = b
+                yield a
+
+
 def gen_cases(rng, tier):
+    yield from interleaved_cases(rng, tier)
     yield from history_cases(rng, tier)
     yield from unstable_cases(rng, tier)
     yield from boundary_cases(rng, tier)
@@ -769,7 +893,8 @@ def corruptions(traces):
         out.append((t, "strip-count"))
     t = first(lambda t: t["hdr"]["style"] == "kitty" and t["hdr"]["unstable"] and t["hdr"]["method"] == "lines"
               and t["hdr"]["rh"] > 1 and t["hdr"]["compress"] == 0 and t["hdr"]["blend"]
-              and t["hdr"]["ch"] != t["hdr"]["ch2"] and len(t["ev"]) == t["hdr"]["rh"], unstable=True)
+              and t["hdr"]["ch"] != t["hdr"]["ch2"] and len(t["ev"]) == t["hdr"]["rh"]
+              and t["ev"][1]["s"] * max(t["hdr"]["ch"], t["hdr"]["ch2"]) * 4 <= 3000, unstable=True)
     if t:
         # second strip re-announced with the OTHER cell height (payload lengths made to agree)
         e = t["ev"][1]
@@ -880,6 +1005,7 @@ def main(rep: Report, replay: dict | None) -> None:
     actions: dict[str, int] = {}
     unstable: dict[str, int] = {}
     histories: dict[str, int] = {}
+    interleaved: dict[str, int] = {}
     rejected = 0
     block = 4000
     for b0 in range(0, len(cases), block):
@@ -952,6 +1078,9 @@ def main(rep: Report, replay: dict | None) -> None:
         for key, n in classify_boundaries(traces).items():
             bc[key] = bc.get(key, 0) + n
         for tr in traces:
+            if tr["hdr"].get("il", "B") != "B":
+                interleaved[tr["hdr"]["il"]] = interleaved.get(tr["hdr"]["il"], 0) + 1
+        for tr in traces:
             if "hist" in tr["hdr"]:
                 histories[tr["hdr"]["hist"]] = histories.get(tr["hdr"]["hist"], 0) + 1
         for tr in traces:
@@ -974,6 +1103,9 @@ def main(rep: Report, replay: dict | None) -> None:
     rep.extra["renders"] = len(cases)
     rep.extra["Trace_Gfx_actions"] = actions
     rep.extra["unstable_cell_size_renders"] = unstable
+    rep.extra["interleaved_render_pairs"] = interleaved
+    if not replay and not rep.violations and len(interleaved) < 20:
+        raise tlc.MachineryError(f"interleaved-renders group is incomplete: {interleaved}")
     rep.extra["multi_render_history_traces"] = histories
     if not replay and not rep.violations and not (histories.get("render@0") and histories.get("iter@1")):
         raise tlc.MachineryError(f"multi-render history group is vacuous: {histories}")
